@@ -39,6 +39,8 @@ type machine struct {
 	// noAddr: index of the peer whose discovery data carries no device address (-1: none). The stack knows
 	// its entities and features under addresses without device part.
 	noAddr int
+	// fresh counts the entities announced as new by full notifications (each gets an address of its own)
+	fresh int
 }
 
 // stripDevice: the discovery data as a device sends it that does not state its device address (an optional
@@ -630,6 +632,17 @@ func (m *machine) entityRemoveThenWrite(t *rapid.T) {
 			if !m.isGone(pi, e.Addr) && !goes(e.Addr) {
 				stay = append(stay, e)
 			}
+		}
+		if rapid.Bool().Draw(t, "fullAlsoAnnouncesNewEntity") {
+			// the same notification announces an entity the peer did not have so far (a fresh address every
+			// time; no writer of the history lives on it and a later full notification that does not list it
+			// takes it away again), anywhere among the entities that stay
+			m.fresh++
+			ne := world.EntSpec{Addr: []uint{uint(4 + m.fresh)}, Type: model.EntityTypeTypeEV, Feats: []world.FeatSpec{
+				{ID: 1, Type: model.FeatureTypeTypeMeasurement, Role: model.RoleTypeClient}}}
+			at := rapid.IntRange(0, len(stay)).Draw(t, "newEntityAt")
+			stay = append(stay[:at:at], append([]world.EntSpec{ne}, stay[at:]...)...)
+			form = "full+new-entity"
 		}
 		m.discoveryNotify(p, m.discoveryData(p, world.WithDeviceInfo(stay), nil), false)
 	default:
